@@ -4,6 +4,10 @@ package endpoint
 import (
 	"crypto/ed25519"
 
+	"github.com/brutella/hc/crypto/chacha20poly1305"
+	"github.com/brutella/hc/crypto/curve25519"
+	"github.com/brutella/hc/crypto/hkdf"
+	"github.com/brutella/hc/db"
 	"github.com/brutella/hc/hap/pair"
 
 	"hcverif/verif"
@@ -108,5 +112,35 @@ func Harness_C13_q_pair_verify_any_message() {
 	w.connect("10.0.0.3:5000")
 	r3, p3 := eePost(w.verify, "/pair-verify", "10.0.0.3:5000", start)
 	verif.Assert(ok(r3, p3), "pair-verify-new-connection-starts")
+	verif.Reach("end")
+}
+
+// A stored pairing may hold a key of an unusual length (an admin controller can add any
+// bytes through /pairings). An unpaired peer that names such a pairing in a correctly sealed
+// pair-verify finish is answered with an error; the handler does not panic.
+func Harness_C13_q_verify_names_pairing_with_odd_key() {
+	w := eeNewWorld()
+	n := []int{0, 1, 31, 33, 64}[verif.Choice("stored-key-length", 5)]
+	w.db.SaveEntity(db.NewEntity("odd", verif.Bytes("odd-key", n), nil))
+	_, sess := w.connect("10.0.0.9:6000")
+	remote := "10.0.0.9:6000"
+	sk := curve25519.GeneratePrivateKey()
+	pk := curve25519.PublicKey(sk)
+	rec, p := eePost(w.verify, "/pair-verify", remote, eeTLV(pair.TagSequence, byte(1), pair.TagPublicKey, pk[:]))
+	verif.Assert(!p, "nopanic-pair-verify")
+	t := rec.tlv()
+	if p || t == nil || len(t.GetBytes(pair.TagPublicKey)) != 32 {
+		return
+	}
+	var accEph [32]byte
+	copy(accEph[:], t.GetBytes(pair.TagPublicKey))
+	shared := curve25519.SharedSecret(sk, accEph)
+	key, _ := hkdf.Sha512(shared[:], []byte("Pair-Verify-Encrypt-Salt"), []byte("Pair-Verify-Encrypt-Info"))
+	sub := eeTLV(pair.TagUsername, "odd", pair.TagSignature, verif.Bytes("signature", 64))
+	ct, mac, _ := chacha20poly1305.EncryptAndSeal(key[:], []byte("PV-Msg03"), sub, nil)
+	rec, p = eePost(w.verify, "/pair-verify", remote, eeTLV(pair.TagSequence, byte(3), pair.TagEncryptedData, append(ct, mac[:]...)))
+	verif.Assert(!p, "nopanic-pair-verify")
+	verif.Assert(p || rec.status != 0, "pair-verify-always-answers")
+	verif.Assert(sess.Decrypter() == nil, "odd-key-does-not-verify")
 	verif.Reach("end")
 }
